@@ -316,6 +316,28 @@ theorem holds_model_local (me n honest : Nat) (myKey : Option String) (ev : Opti
     holds me n honest myKey ev sel (fateThenOperatorsG me n honest myKey ev sel ia dq) = true := by
   rw [fateG_eq]; exact holds_model me n honest myKey ev sel hn
 
+/-- C05, the caller: in the publication-failure branch of `ExecuteDKG` the signer's operators
+    are those of the fate decision — the local view that `operatingMemberIndexes` held before is
+    gone, for every local view. -/
+theorem executeDkg_failure_branch (me n honest : Nat) (myKey : Option String) (ev : Option Event)
+    (sel : List String) (ia dq : List Nat) :
+    executeDkgTail false me n honest myKey ev sel ia dq =
+      fateThenOperators me n honest myKey ev sel := rfl
+
+theorem executeDkg_failure_branch_holds (me n honest : Nat) (myKey : Option String)
+    (ev : Option Event) (sel : List String) (ia dq : List Nat) (hn : n ≤ 255) :
+    holds me n honest myKey ev sel (executeDkgTail false me n honest myKey ev sel ia dq) = true := by
+  rw [executeDkg_failure_branch]; exact holds_model me n honest myKey ev sel hn
+
+/-- Non-vacuity: keeping the local view in the failure branch (a shadowed variable) gives member 5
+    of the corpus run four operators instead of five, which the monitor rejects. -/
+example : resolveGroupOperators ["op", "op", "op", "op", "op"]
+    (⟨members 5, [2], []⟩ : Group).operating 5 3 = .ok ["op", "op", "op", "op"] := by decide
+example : executeDkgTail false 5 5 3 (some "k") (some ⟨"k", []⟩) ["op", "op", "op", "op", "op"] [2] []
+    = .ok ["op", "op", "op", "op", "op"] := by decide
+example : holds 5 5 3 (some "k") (some ⟨"k", []⟩) ["op", "op", "op", "op", "op"]
+    (.ok ["op", "op", "op", "op"]) = false := by decide
+
 /-- Non-vacuity: a fate built from the local operating set (`Group.operating`) instead of the
     member list differs, and the monitor rejects it. -/
 example : (⟨members 5, [4], []⟩ : Group).operating = [1, 2, 3, 5] := by decide
